@@ -33,7 +33,7 @@ def timerAfter (m : Machine) (path : List Sym) : Option T :=
   run (cfgOf m) (init m.init)
     (Ev.setState m.init (fv m.init) :: (statesAlong m m.init path).map (fun q => Ev.setState q (fv q)))
 
-def handle (line : String) : Out :=
+def handleOp (line : String) : Out :=
   match (line.splitOn ";").map tokens with
   | ["tmo" :: proto :: role :: pct :: path, [nxt]] =>
     match GV.Spec.Conformance.find (proto ++ "/" ++ role), parseNat? pct, parseSyms path, parseSym nxt with
@@ -54,6 +54,14 @@ def handle (line : String) : Out :=
           { model := s!"err=timeout armed=1 moved=0", spec := "err=timeout *" }
         else { model := "guard-band", spec := "*" }
     | _, _, _, _ => badOp
+  | _ => badOp
+
+/-- feed_impl: `op \t impl-output`; a run the harness could not time (overloaded machine) is not judged -/
+def handle (line : String) : Out :=
+  match line.splitOn "\t" with
+  | [op, impl] =>
+    if impl = "skip-overload" then { model := impl, spec := "*" } else handleOp op
+  | [op] => handleOp op
   | _ => badOp
 
 end GV.Drv.C14
